@@ -709,8 +709,9 @@ def soak(chk, prop, conns=18):
 
 
 def run_property(chk, prop, oracle, profiles, nrand_quick, nrand_thorough, replay=None, extra_cases=(), nontrivial=None,
-                 rule="", trusted=(), assumptions=(), races=False):
-    """Common check body for the single-connection properties."""
+                 rule="", trusted=(), assumptions=(), races=False, extra=None):
+    """Common check body for the single-connection properties.  extra(chk): further obligations of one property
+    (may report violations with a concrete input), run after the correspondence and the oracle."""
     pr = chk.prove()
     model, impl = build()
     known = [k for k in vlib.known_findings() if k["property"] == prop]
@@ -775,6 +776,8 @@ def run_property(chk, prop, oracle, profiles, nrand_quick, nrand_thorough, repla
     chk.cov["traces_validated_against_impl"] = len(cases) - len(corr_bad)
     chk.add_obligation("correspondence: extracted Conn_Model.step == real TcpConnection (scripted kernel, raw peer) on every case, every observer after every op", not corr_bad)
     chk.add_obligation("oracle: %s evaluated on the implementation's own trace" % prop, not orc_bad)
+    if extra and not replay:
+        extra(chk)
     soak_bad = []
     if chk.tier == "thorough" and not replay:
         ok_soak, soak_bad, summ = soak(chk, prop)
@@ -825,7 +828,8 @@ def run_property(chk, prop, oracle, profiles, nrand_quick, nrand_thorough, repla
             body = small.text()
         path = chk.write_replay("broken_obligation.txt", "\n".join("# " + w for w in what) + "\n" + body +
                                 ("\n--- coq log tail ---\n" + pr["log"][-3000:] if not pr["ok"] else ""))
-        chk.violation(path, "; ".join(what), no_input=True)
+        # "no failing input found" only if no other part of this run exhibited one
+        chk.violation(path, "; ".join(what), no_input=not any(not v[2] for v in chk.violations))
     return chk.finish(level="proof", assumptions=list(assumptions) + [
         "an AF_UNIX stream socketpair stands in for the TCP stream; the kernel's write results are scripted at the sockets::write boundary (environment contract, DESIGN 3.4)",
         "loop-thread code is atomic w.r.t. other loop-thread code; foreign calls interleave only at their state test and their enqueue (DESIGN 3.2)"])
